@@ -10,12 +10,15 @@ import os
 from nvlib import engine as E
 from nvlib.check import Prop
 
-HEAD = ['#include "/include/vcommon.h"', 'string oid = "?";', 'int vsel; GLOBALS',
+HEAD = ['#include "/include/vcommon.h"', 'string oid = "?";', 'int vsel; int mflag; GLOBALS',
         'void create () { seteuid (getuid ()); CREATE }',
         'void set_oid (string s) { oid = s; "/vreg"->reg (s, this_object ()); }',
         'void cb (string s) { VL ("cb " + s); }',
         'int add3 (int a, int b, int c) { return a + b + c; }']
 DECL = "mixed e; object p0; mixed a; string s;"
+# every prep(): a copy of the master left loaded by a reload whose create() failed is removed; the spare objects are refilled
+MPREP = 'p0 = find_object ("/c05/master"); if (p0 && p0 != master ()) destruct (p0); master ()->refill (6);'
+
 # entry points of the backend cycles (`injectbe`): the driver calls these itself
 BE_WRAPPERS = ["void heart_beat () { run (); }", "void reset () { run (); }", "int clean_up (int inh) { run (); return 1; }"]
 BE_OPS = {"cmd": "(becmd u1 t %s)", "hb": "(behb t %s)", "reset": "(bereset t %s)", "cleanup": "(becleanup t %s)"}
@@ -36,6 +39,7 @@ class Builder:
         self.budget = budget
         self.kinds = {}
         self.in_rep = 0
+        self.vital_used = False  # one destruct of a vital object per program (fixed entry point mcreate)
         self.verb_used = False  # one command verb per program (fixed entry point gobody)
         self.nf_used = False  # one notify_fail() callback per program (fixed entry point nfbody)
         self.in_safe = 0     # sprintf() refuses to run inside the object_name() master call
@@ -87,6 +91,8 @@ class Builder:
                  ("catch", 7), ("raise", 3), ("throw", 2), ("safe", 3 if main and not self.in_safe else 0), ("setcg", 2 if main and self.use_setcg and not self.no_cg else 0),
                  ("install", 2 if main and not self.use_setcg else 0), ("installbad", 2 if main and not self.use_setcg else 0), ("load", 2 if main and not self.in_rep else 0),
                  ("clone", 2 if main else 0),
+                 ("vitalmaster", 3 if main and not self.vital_used and not self.in_rep and not self.in_safe else 0),
+                 ("vitalnoeuid", 2 if main and not self.in_rep else 0),
                  ("verbcmd", 3 if main and not self.no_cg and not self.verb_used and not self.in_rep else 0),
                  ("notifyfail", 3 if main and not self.no_cg and not self.nf_used and not self.in_rep else 0),
                  ("arity", 5), ("inithook", 3 if main and not self.in_rep else 0), ("dhook", 3 if main and not self.in_rep else 0)]
@@ -245,6 +251,31 @@ class Builder:
             else:
                 stmts.append("evaluate ((: %s :)%s);" % (name, (", " + args) if args else ""))
                 ops.append("(call fplocal %s %d %d %s)" % (t, passed, declared, body_ops))
+        elif k == "vitalmaster":
+            # destruct(master()): destruct_object() pushes the fix_object_names error-handler slot, records both vital names,
+            # blanks the master's name and reloads the master file; create() of the new copy runs a generated body
+            self.vital_used = True
+            b, o = self.sub(fctx, depth)
+            f = self.fn(fctx, b)
+            self.files[fctx]["fns"].append("void mcreate () { if (mflag) { mflag = 0; %s (); } }" % f)
+            stmts.append("mflag = 1; destruct (master ());")
+            ops.append("(tmp 1 (vital master (load (call other master 0 0 (call other %s 0 0 (call local %s 0 0 %s)))) (call other master 0 0)))"
+                       % (t, t, " ".join(o)))
+        elif k == "vitalnoeuid":
+            # destruct of a vital object asked for by an object without an effective uid: the reload is refused with an
+            # error raised by load_object() while the slot is on the stack and the name is blank
+            i = self.fresh()
+            name = "V%d" % i
+            which = rng.choice(["master", "simul"])
+            self.files[name] = {"fns": [], "vname": [], "create": "", "extra": [
+                "void go () { destruct (%s); }" % ("master ()" if which == "master" else 'find_object ("/simul_efun")')]}
+            path = "/c05/gen/%s" % name
+            self.prep.append('if (p0 = find_object ("%s")) destruct (p0); load_object ("%s");' % (path, path))
+            stmts.append('"%s"->go ();' % path)
+            # (this driver refuses to destruct the simul_efun object while a master exists, before anything is touched)
+            ops.append(("(call other %s 0 0 (tmp 1 (vital master (craise *Can't load objects when no effective user.))))" % t) if which == "master"
+                       else ("(call other %s 0 0 (tmp 1 (craise *Cannot destruct simul_efun_object while master_object exists.)))" % t))
+            return True
         elif k == "verbcmd":
             # command("go"): user_parser() sets last_verb around the call of the verb function (add_action of /c05/user)
             self.verb_used = True
@@ -305,7 +336,7 @@ class Builder:
         lines += f["fns"]
         if name == "t":
             lines += BE_WRAPPERS
-            lines.append('void prep () { object p0; vsel = 0; "/c05/master"->refill (6); %s }' % " ".join(self.prep))
+            lines.append('void prep () { object p0; vsel = 0; mflag = 0; ' + MPREP + ' %s }' % " ".join(self.prep))
         return "\n".join(lines) + "\n"
 
 
@@ -372,7 +403,7 @@ def build_case(rng, cid, budget):
 def fixed_case(cid, run_body, ops, fns=(), prep="", tail=(), inject="inject t run", vname="", extra_files=None, extra_head=()):
     src = "\n".join([l.replace("CREATE", "").replace("GLOBALS", "") for l in HEAD] + ["mixed run ();"] + BE_WRAPPERS + list(fns) +
                     ['string vname () { %s return "n"; }' % vname,
-                     'void prep () { object p0; vsel = 0; "/c05/master"->refill (6); %s }' % prep,
+                     'void prep () { object p0; vsel = 0; mflag = 0; ' + MPREP + ' %s }' % prep,
                      "mixed run () { %s %s return 1; }" % (DECL, run_body)]) + "\n"
     files = {"t": src}
     files.update(extra_files or {})
@@ -457,7 +488,8 @@ class C05(Prop):
                 "NV.C05.tie_context_fields_saved", "NV.C05.tie_every_field_saved_is_restored", "NV.C05.tie_context_globals",
                 "NV.C05.tie_frame_registers", "NV.C05.tie_frame_saved_is_restored", "NV.C05.tie_all_globals_classified",
                 "NV.C05.tie_classes_match_source", "NV.C05.tie_command_giver_stack", "NV.C05.tie_callback_handlers",
-                "NV.C05.tie_backend_shapes", "NV.C05.tie_catch_value_order", "NV.C05.tie_handler_flag", "NV.C05.tie_handler_limit_state", "NV.C05.tie_hook_globals_apart", "NV.C05.raise_sets_catch_value_after_handler",
+                "NV.C05.tie_backend_shapes", "NV.C05.tie_catch_value_order", "NV.C05.tie_handler_flag", "NV.C05.tie_error_handler_slots", "NV.C05.tie_vital_destruct_order",
+                "NV.C05.vital_records_before_blanking", "NV.C05.vital_nested_refused", "NV.C05.popN_fixNames", "NV.C05.vitalFinish_good", "NV.C05.tie_handler_limit_state", "NV.C05.tie_hook_globals_apart", "NV.C05.raise_sets_catch_value_after_handler",
                 "NV.C05.driver_restores", "NV.C05.model_satisfies_spec_driver",
                 "NV.C05.backend_cycle_restores", "NV.C05.model_satisfies_spec_backend", "NV.C05.restoreContext_verb",
                 "NV.C05.saveContext_verb", "NV.C05.judgeObs_nil_of_core", "NV.C05.hbOffStep_spec", "NV.C05.raiseInner_uncaught_switches_heart_beat_off", "NV.C05.hbOffStep_same", "NV.C05.verbFinish_good", "NV.C05.hbFinish_good",
@@ -817,7 +849,36 @@ class C05(Prop):
         out.append("/-- C functions that call back into LPC without a recovery point of their own (callback can longjmp past them): "
                    "(function, leaves a T_ERROR_HANDLER slot) -/\ndef callbackSites : List (String × Bool) := [%s]"
                    % ", ".join('("%s", %s)' % (n, "true" if h else "false") for n, h, _ in inv))
-        self.callback_inventory = {"sites": len(inv), "with_error_handler": [n for n, h, _ in inv if h],
+        # (8) every T_ERROR_HANDLER slot pushed on the value stack (run by the unwinding): (file, handler function)
+        slots = []
+        for root in ("src", "lib"):
+            for dp, dn, fn in os.walk(os.path.join(E.REPO, root)):
+                for f in sorted(fn):
+                    if f.endswith(".c"):
+                        t = re.sub(r"/\*.*?\*/", "", open(os.path.join(dp, f), errors="replace").read(), flags=re.S)
+                        for hm in re.finditer(r"->\s*u\.error_handler\s*=\s*(\w+)\s*;", t):
+                            slots.append((f, hm.group(1)))
+        slots = sorted(set(slots))
+        out.append("/-- every `…->u.error_handler = f;` of the source: (file, handler) -/\n"
+                   "def errorHandlerSlots : List (String × String) := %s" % pairs(slots))
+        # (9) destruct_object of a vital object: slot pushed and both names recorded BEFORE the name is blanked; the handler
+        #     restores both names; the two by-hand back-outs restore the name and drop the slot before raising
+        dob = body("src/simulate.c", "destruct_object")
+        i_slot = dob.find("sp->u.error_handler = fix_object_names")
+        i_m = dob.find("saved_master_name = master_ob")
+        i_s = dob.find("saved_simul_name = simul_efun_ob")
+        i_blank = dob.find('ob->name = ""')
+        i_load = dob.find("new_ob = load_object (tmp")
+        out.append("/-- destruct_object: the fix_object_names slot is pushed and both names are recorded before `ob->name = \"\"`, which comes "
+                   "before the reload -/\ndef destructRecordsNamesBeforeBlanking : Bool := %s"
+                   % ("true" if 0 <= i_slot < i_blank and 0 <= i_m < i_blank and 0 <= i_s < i_blank < i_load else "false"))
+        fon = body("src/simulate.c", "fix_object_names")
+        out.append("/-- fix_object_names puts both recorded names back -/\ndef fixObjectNamesRestoresBoth : Bool := %s"
+                   % ("true" if re.search(r"master_ob->name\s*=\s*saved_master_name\s*;", fon) and
+                      re.search(r"simul_efun_ob->name\s*=\s*saved_simul_name\s*;", fon) else "false"))
+        out.append("/-- destruct_object: back-outs by hand (`ob->name = tmp; sp--; error (…)`) -/\ndef destructManualBackouts : Nat := %d"
+                   % len(re.findall(r"ob->name\s*=\s*tmp\s*;\s*sp--\s*;\s*error\s*\(", dob)))
+        self.callback_inventory = {"sites": len(inv), "error_handler_slots": ["%s:%s" % x for x in slots], "with_error_handler": [n for n, h, _ in inv if h],
                                    "by_file": {r: sum(1 for _, _, rr in inv if rr == r) for r in sorted(set(r for _, _, r in inv))}}
         return out
 
@@ -943,6 +1004,30 @@ class C05(Prop):
                                     (CATCHSTMT % '"/c05/user"->failcmd ()') if outer else call,
                                     ("(catch %s) (saycatch)" % o) if outer else o,
                                     fns=["void nfbody () { %s }" % stmt]))
+        # the T_ERROR_HANDLER slot of destruct_object(): destruct of the master / the simul_efun object whose reload fails -
+        # refused (caller without euid), error / throw in create() of the new copy, fault at every instruction of it
+        vobj = '#include "/include/vcommon.h"\nvoid go () { destruct (%s); }\n'
+        for which, expr in (("master", "master ()"), ("simul", 'find_object ("/simul_efun")')):
+            for outer in (False, True):
+                call = '"/c05/gen/VN"->go ();'
+                o = ("(call other t 0 0 (tmp 1 (vital master (craise *Can't load objects when no effective user.))))" if which == "master"
+                     else "(call other t 0 0 (tmp 1 (craise *Cannot destruct simul_efun_object while master_object exists.)))")
+                B.append(fixed_case("b-vital-%s-noeuid%s" % (which, "-caught" if outer else ""),
+                                    (CATCHSTMT % '"/c05/gen/VN"->go ()') if outer else call,
+                                    ("(catch %s) (saycatch)" % o) if outer else o,
+                                    prep='if (p0 = find_object ("/c05/gen/VN")) destruct (p0); load_object ("/c05/gen/VN");',
+                                    extra_files={"VN": vobj % expr}))
+        for name, stmt, bops in (("say", 'VL ("say x");', "(say x)"), ("raise", 'error ("boom1\\n");', "(raise boom1)"),
+                                 ("throw", 'throw ("t1");', "(throw t1)"),
+                                 ("caught-inside", CATCHSTMT % "f1 ()", "(catch (call local t 0 0 (raise boom2))) (saycatch)")):
+            for outer in (False, True):
+                call = "mflag = 1; destruct (master ());"
+                o = "(tmp 1 (vital master (load (call other master 0 0 (call other t 0 0 %s))) (call other master 0 0)))" % bops
+                B.append(fixed_case("b-vital-master-create-%s%s" % (name, "-caught" if outer else ""),
+                                    ("mflag = 1; " + CATCHSTMT % "destruct (master ())") if outer else call,
+                                    ("(catch %s) (saycatch)" % o) if outer else o,
+                                    fns=['void f1 () { error ("boom2\\n"); }',
+                                         "void mcreate () { %s if (mflag) { mflag = 0; %s } }" % (DECL, stmt)]))
         # last_verb (query_verb()): an error in a verb function must not leave it set after the command
         for name, stmt, bops in (("say", 'VL ("say x");', "(say x)"), ("raise", 'error ("boom1\\n");', "(raise boom1)"),
                                  ("throw", 'throw ("t1");', "(throw t1)")):
@@ -970,7 +1055,7 @@ class C05(Prop):
         for script in (1, 2, 4, 8, 16, 5, 7, 21, 31):
             for name, stmt, hops in hshapes:
                 B.append(fixed_case("b-handler-script-%d-%s" % (script, name), stmt, hops, fns=hfns,
-                                    prep='"/c05/master"->set_hscript (%d);' % script, inject="run t run"))
+                                    prep='master ()->set_hscript (%d);' % script, inject="run t run"))
         # a register changed between save_context and the first frame push is not restored (model predicts it)
         B.append(fixed_case("b-setreg-co", "f1 ();", "(call local t 0 0 (say x))", fns=['void f1 () { VL ("say x"); }'],
                             inject="inject t run co probe"))
@@ -985,7 +1070,7 @@ class C05(Prop):
 
     # ---- oracle self-test: the string judge must reject hand-made bad traces (one per clause) ----
     def extra_checks(self, ctx, tier, rng):
-        snap = "sp=-1 csp=-1 cg=u1 co=0 po=0 prog=0 ct=0 fp=-1 pc=null fio=0 vio=0 ctx=0 ld=0 rd=0 cgs=0 qv=0"
+        snap = "sp=-1 csp=-1 cg=u1 co=0 po=0 prog=0 ct=0 fp=-1 pc=null fio=0 vio=0 ctx=0 ld=0 rd=0 cgs=0 qv=0 mn=ok sn=ok"
         probe = "caught *probe-err ; probe tp=u1 po=0 d=0 l=0 a=3,4 e=*probe-err  co=42 side in=0 hb=0"
         head = ["base " + snap, "probe0 " + probe]
         hb1 = probe.replace("hb=0", "hb=1")     # a heart-beat case: the heart beat of t is on before every evaluation
@@ -1004,6 +1089,8 @@ class C05(Prop):
             ("rd", [out(["catch t1", "done 1"], snap.replace("rd=0", "rd=other"))], "restore fault rd"),
             ("cgs", [out(["err *x", "fault-top"], snap.replace("cgs=0", "cgs=1"))], "restore fault cgs"),
             ("qv", [out(["err *x", "fault-top"], snap.replace("qv=0", "qv=set"))], "restore fault qv"),
+            ("mn", [out(["caught *x", "catch *x", "done 1"], snap.replace("mn=ok", "mn=blank"))], "restore fault mn"),
+            ("sn", [out(["err *x", "fault-top"], snap.replace("sn=ok", "sn=blank"))], "restore fault sn"),
             ("probe", [out(["done 1"], pr=probe.replace("a=3,4", "a=3"))], "probe fault differs"),
             ("probe-destruct", [out(["done 1"], pr=probe.replace("d=0", "d=*Only this_object() can be destructed"))], "probe fault differs"),
             ("half-install", [out(["caught nf", "catch nf", "done 1"], pr=probe.replace("in=0", "in=1"))], "half-install"),
